@@ -241,10 +241,13 @@ def repo_state(h):
     return st
 
 
-def excuse(bits, state):
+def excuse(bits, state, what="law"):
     """the open known-finding class that covers a difference for a function with these class bits
     (mirrors the exclusions of the Coq statements: Emit.v v_has_nan / v_needs_escape / v_do_shadows /
-    v_self_shadow / paren_lossy before and after inlining)"""
+    v_self_shadow / paren_lossy before and after inlining).  what = "ast1": the emitted text itself;
+    "law": behaviour / body of the reloaded function — the reload path prints the parsed body once more
+    with the plain printer, so a shape that needs parentheses only AFTER inlining (a negative literal or an
+    inlined closure as an operand) is rendered correctly by the emission and then broken by F12-F14."""
     nan, esc, bothq, dosh, selfn, closed, lossy0, lossy1 = [x == "1" for x in bits]
     if nan and not state["nan"]:
         return "F10"
@@ -252,14 +255,16 @@ def excuse(bits, state):
         return "F11"
     if dosh and not state["do"]:
         return "F50"
-    if selfn and not state["self"]:
+    if selfn and not state["self"] and what == "law":
         return "F8"
     if lossy0 and not state["paren"]:
         return "F12-F14"
-    if lossy1 and not lossy0 and not state["neg"]:
-        return "F15"
-    if lossy1 and not state["paren"]:
-        return "F12-F14"
+    if lossy1 and not lossy0:
+        if what == "ast1":
+            return None if state["neg"] else "F15"
+        if not state["paren"]:
+            return "F12-F14"
+        return None if state["neg"] else "F15"
     return None
 
 
@@ -366,6 +371,7 @@ def main(argv):
         a2 = rep.split(" A2")[1][:4]
         closed = bits[5] == "1"
         ex = excuse(bits, state)
+        ex1 = excuse(bits, state, "ast1")
         # --- (i) correspondence: emitted text parsed by the real parser == model AST
         if a1[want] == "1":
             stats["ast_agree"] += 1
@@ -373,8 +379,8 @@ def main(argv):
                 stats["ast2_agree"] += 1
             elif ex is None:
                 mism.append((prog, "body of the reloaded function (AST2)", rep))
-        elif ex is not None and ex != "F8":
-            stats["ast_excused"][ex] = stats["ast_excused"].get(ex, 0) + 1
+        elif ex1 is not None:
+            stats["ast_excused"][ex1] = stats["ast_excused"].get(ex1, 0) + 1
         else:
             mism.append((prog, "parse of the emitted text (AST1)", rep))
         # --- (ii) the property on the implementation alone
